@@ -178,12 +178,53 @@ class SimExprModel:
         return aa1 * bb + baseline
 
 
+class SimAuxModel:
+    model_doc = ("Harness model: Hertz paraboloid, E = scale * E_ref with "
+                 "two auxiliary parameters that are not listed in "
+                 "parameter_keys")
+    model_key = "sim_aux"
+    model_name = "harness hertz with auxiliary parameters"
+    parameter_keys = ["E", "R", "nu", "contact_point", "baseline"]
+    parameter_names = ["Young's Modulus", "Tip Radius", "Poisson's Ratio",
+                       "Contact Point", "Force Baseline"]
+    parameter_units = ["Pa", "m", "", "m", "N"]
+    valid_axes_x = ["tip position"]
+    valid_axes_y = ["force"]
+
+    @staticmethod
+    def get_parameter_defaults():
+        import lmfit
+        params = lmfit.Parameters()
+        params.add("E", value=2e3, min=0)
+        params.add("R", value=10e-6, min=0, vary=False)
+        params.add("nu", value=.5, min=0, max=0.5, vary=False)
+        params.add("contact_point", value=0)
+        params.add("baseline", value=0)
+        params.add("E_ref", value=500, min=0, max=1e5, vary=False)
+        params.add("scale", value=4, min=0, max=100, vary=True)
+        params["E"].set(expr="scale*E_ref")
+        return params
+
+    @staticmethod
+    def model_func(delta, E, R, nu, contact_point=0, baseline=0,
+                   E_ref=500, scale=4):
+        PLAN.hit("model")
+        aa = 4 / 3 * E / (1 - nu ** 2) * np.sqrt(R)
+        root = contact_point - delta
+        pos = root > 0
+        bb = np.zeros_like(delta)
+        bb[pos] = (root[pos]) ** (3 / 2)
+        return aa * bb + baseline
+
+
 def install_sim_model():
     if _installed.get("model"):
         return
     import nanite.model
     if "sim_expr" not in nanite.model.models_available:
         nanite.model.register_model(SimExprModel)
+    if "sim_aux" not in nanite.model.models_available:
+        nanite.model.register_model(SimAuxModel)
     _installed["model"] = True
 
 
